@@ -106,6 +106,15 @@ def main(argv=None):
 
 def run_check(pid, mod, tier, seed):
     t0 = time.time()
+    stale = []
+    for c in [c for c in REG.contracts.values() if pid in props_of(c) and c.optional]:
+        try:
+            Explorer(REG, c).explore()
+        except (EngineError, ExtractionError) as e:
+            del REG.contracts[c.fq]
+            REG.inline(c.fq)
+            stale.append(f"{c.fq}: {e}")
+            print(f"NOTE property={pid} helper contract {c.fq} no longer fits the code ({e}); callers are verified against its inlined body")
     units = [c for c in REG.contracts.values() if pid in props_of(c) and c.verify]
     obligations = []
     unit_info = []
@@ -233,6 +242,7 @@ def run_check(pid, mod, tier, seed):
         "slowest": [{"time_s": round(t, 2), "unit": u, "obligation": n, "backend": b} for t, u, n, b in slowest],
         "covers": {"sat": by_backend.get("cover-sat", 0), "unknown": by_backend.get("cover-unknown", 0), "unsat(vacuous!)": len(cover_bad)},
         "loops_with_invariant_True": weak_loops,
+        "stale_helper_contracts_inlined": stale,
         "syntactic": syn_results,
         "obligation_names": names if len(names) <= 400 else {"count": len(names)},
         "dropped_by_extraction": DROPPED,
@@ -250,6 +260,8 @@ def run_check(pid, mod, tier, seed):
         for o, r in refuted + undecided:
             print(f"  DEBUG {r['verdict']} {o.unit.split(':')[-1]}/{o.name} path={o.path} backend={r['backend']} t={r['time_s']:.1f} q={r.get('qstats')} size={r.get('size')}")
             print(f"        note={str(o.note)[:160]} detail={r['detail'][:160]}")
+            if r.get("model"):
+                print("        model:", {k: (list(v.values())[0] if len(str(v)) < 200 else str(v)[:200]) for k, v in r["model"].items() if k.startswith(("in!", "watch!"))})
     # ---- verdict
     for kf, o, rep in known_hits:
         print(f"KNOWN-FINDING: property={pid} {kf.get('what', kf.get('id'))}")
